@@ -1536,21 +1536,28 @@ class MacroFunction(Macro):
         if self.has_strcat:
             res_tokens = []
             last_cat = False
+            placemarker = False
             idx = 0
 
             while idx < len(self.replacement):
                 tok = self.replacement[idx]
                 if tok.token == "##":
-                    last = res_tokens.pop()
-                    prev_white = last.prev_white
-                    if not last_cat:
-                        try:
-                            argidx = self.args.index(last.token)
-                            last = input_args[argidx][0]  # Unexpanded arg
-                        except ValueError:
-                            last = [last]
+                    if last_cat and placemarker:
+                        # The previous ## pasted two empty arguments: its
+                        # result is a placemarker, not the preceding token.
+                        last = []
+                        prev_white = False
                     else:
-                        last = [last]
+                        last = res_tokens.pop()
+                        prev_white = last.prev_white
+                        if not last_cat:
+                            try:
+                                argidx = self.args.index(last.token)
+                                last = input_args[argidx][0]  # Unexpanded arg
+                            except ValueError:
+                                last = [last]
+                        else:
+                            last = [last]
                     idx += 1
                     nexttok = self.replacement[idx]
                     try:
@@ -1577,6 +1584,7 @@ class MacroFunction(Macro):
                         res_tokens.extend(toadd)
                     else:
                         res_tokens.extend(nexttok)
+                    placemarker = len(last) == 0 and len(nexttok) == 0
                     last_cat = True
                 elif tok.token == "#":
                     idx += 1
